@@ -105,8 +105,8 @@ CHECKS = {
          "DESIGN.md §4 C20"),
  "C11": ("model_checking",
          "exhaustive enumeration of (configuration x single-party fault behaviour x delivery order of one phase at one honest node) on the real DistKeyGenerator objects (Pedersen: fresh, fast-sync, five resharing shapes; Rabin: per-message API); controlled-scheduler exploration (stateless DFS with sleep sets, deviation-bounded) of the real goroutine-driven Protocol type through harness-owned Board and Phaser; end-state oracle on the honest outputs",
-         "Pedersen n=3 (thorough 3,4), all t in [n/2+1,n]: 19 behaviours of one deviating party (absent per phase, invalid share to each victim then justified / unjustified / wrongly justified, wrong holder, out-of-range share index, commitments of length t+-1, wrong session id per phase, duplicate and conflicting bundles, false complaint against each dealer, success response in regular mode, unknown dealer, out-of-range justification, wrong constant term when resharing); bundles mutated, re-signed and filtered by VerifyPacketSignature as the Protocol driver does; for every honest node and phase EVERY permutation of the bundle slice: same emitted bundle and same final output. Rabin n=3: absent, invalid share (justified / unjustified), false complaint against each dealer, bad secret commitments; every order (<= 3 messages; reversal/rotation above) of each of the 5 broadcast waves at each honest node. Protocol type (n=3 real dkg.Protocol goroutines, harness decides every delivery and phase tick): all schedules in regular mode without faults (1,224 traces), all schedules within <=2 (thorough 3) deviations from synchronous rounds otherwise, 6 deviating-party behaviours incl. equivocation, one repeated delivery. Oracle: identical commitments and QUAL, shares on the polynomial, every t-subset reconstructs the key, key = sum of QUAL contributions (resharing: unchanged), disqualification rules, all-honest => all complete, every Protocol delivers a result or error.",
-         "Trusted: seeded randomness; one deviating party; map iteration order inside the Protocol's packet sets is not controlled (the handler-level exploration enumerates the resulting orders). Three open known findings (Rabin: unjustified dealer stays in QUAL; Pedersen fast-sync: equivocating deal / response bundles split the honest nodes).",
+         "Pedersen n=3 (thorough 3,4), all t in [n/2+1,n]: 19 behaviours of one deviating party (absent per phase, invalid share to each victim then justified / unjustified / wrongly justified, wrong holder, out-of-range share index, commitments of length t+-1, wrong session id per phase, duplicate and conflicting bundles, false complaint against each dealer, success response in regular mode, unknown dealer, out-of-range justification, wrong constant term when resharing); bundles mutated, re-signed and filtered by VerifyPacketSignature as the Protocol driver does; for every honest node and phase EVERY permutation of the bundle slice: same emitted bundle and same final output. Rabin n=3: absent, invalid share (justified / unjustified), false complaint against each dealer, secret commitments wrong for all / for one participant with and without (bogus) reconstruction shares; every order (<= 3 messages; reversal/rotation above) of each of the 5 broadcast waves at each honest node. Protocol type (n=3 real dkg.Protocol goroutines, harness decides every delivery and phase tick): all schedules in regular mode without faults (1,224 traces), all schedules within <=2 (thorough 3) deviations from synchronous rounds otherwise, 6 deviating-party behaviours incl. equivocation, one repeated delivery. Oracle: identical commitments and QUAL, shares on the polynomial, every t-subset reconstructs the key, key = sum of QUAL contributions (resharing: unchanged), disqualification rules, all-honest => all complete, every Protocol delivers a result or error.",
+         "Trusted: seeded randomness; one deviating party; map iteration order inside the Protocol's packet sets is not controlled (the handler-level exploration enumerates the resulting orders). Four open known findings (Rabin: unjustified dealer stays in QUAL; Rabin: unchecked reconstruction shares; Pedersen fast-sync: equivocating deal / response bundles split the honest nodes).",
          "DESIGN.md §4 C11"),
 }
 
